@@ -33,5 +33,14 @@ def run(ctx, R):
     for c in dcls:
         holds.check_class(ctx, R, c, rules={'HOLD-BEFORE-ESCAPE', 'REL-AFTER-AWAIT', 'LINEAR-HOLD', 'NO-REL-ON-FAIL'})
     flow.check_meta_pass(ctx, R, [c for c in dcls if c.name in ('map', 'accumulate', 'starmap')])
-    flow.check_propagate(ctx, R, modules=('streamz.dask',), note_modules=())
+    flow.check_propagate(ctx, R, modules=('streamz.dask', 'streamz.core'), note_modules=())
+    # of the core classes only those that the Dask mix-ins inherit their update() from matter here: a dropped awaitable is
+    # invisible locally (synchronous consumers return nothing) but loses ordering/back-pressure on Dask
+    mixed = {b.name for c in dcls for b in c.mro if b.module.name == 'streamz.core' and b.name not in ('Stream', 'APIRegisterMixin')}
+    for k in [k for k in R.obs if k[0] == 'PROPAGATE' and k[1].startswith('streamz.core.')
+              and k[1].split('.')[2] not in mixed]:
+        del R.obs[k]
     delivery.check_emit_sig(ctx, R, dcls)
+
+
+META['level'] += ' PROPAGATE is also evaluated on the core classes whose update() the Dask mix-ins inherit.'
